@@ -224,3 +224,71 @@ def sample_F(seed, maxdepth=3, maxev=14):
 def count_events(ast):
     from puml import event_list
     return len(event_list(ast))
+
+
+# ------------------------------------------------------------------ nesting triples (systematic depth-3 members of F)
+def nesting_triples():
+    """Members of F built systematically from every triple (outer, middle, inner) of constructs in
+    {AND, OR, XOR, loop, XOR-with-break}: the inner block sits at the end or in the middle of one branch / body of the
+    middle block, which sits at the end or in the middle of one branch / body of the outer block; the definition ends
+    with the outer block or with one more event.  All rules of F hold (distinct names, sequences begin with an event,
+    blocks separated by events, 2 branches, depth 3, a break branch is a single event inside a loop's XOR)."""
+    out, seen = [], set()
+    kinds = ("and", "or", "xor", "loop")
+
+    def build(outer, middle, inner, ipos, mpos, tail, brk):
+        cnt = [0]
+
+        def ev():
+            cnt[0] += 1
+            return ("ev", _name(cnt[0]))
+
+        def wrap(kind, content, pos):
+            """a block of `kind` holding `content` (list of items) at the end (pos 0) or in the middle (pos 1) of its
+            first branch / body"""
+            first = [ev()] + content + ([ev()] if pos == 1 else [])
+            if kind == "loop":
+                return ("loop", ("seq", first))
+            return (kind, [("seq", first), ("seq", [ev()])])
+        a = ev()
+        if inner == "loop":
+            ib = ("loop", ("seq", [ev(), ev()]))
+        elif brk:
+            ib = ("xor", [("seq", [ev(), ("break",)]), ("seq", [ev()])])
+        else:
+            ib = (inner, [("seq", [ev()]), ("seq", [ev()])])
+        # reorder names: build outside-in so that names follow the reading order
+        cnt[0] = 0
+        a = ev()
+        o_first = [ev()]
+        m_first = [ev()]
+        if inner == "loop":
+            ib = ("loop", ("seq", [ev(), ev()]))
+        elif brk:
+            ib = ("xor", [("seq", [ev(), ("break",)]), ("seq", [ev()])])
+        else:
+            ib = (inner, [("seq", [ev()]), ("seq", [ev()])])
+        m_first = m_first + [ib] + ([ev()] if ipos == 1 else [])
+        mb = ("loop", ("seq", m_first)) if middle == "loop" else (middle, [("seq", m_first), ("seq", [ev()])])
+        o_first = o_first + [mb] + ([ev()] if mpos == 1 else [])
+        ob = ("loop", ("seq", o_first)) if outer == "loop" else (outer, [("seq", o_first), ("seq", [ev()])])
+        items = [a, ob] + ([ev()] if tail else [])
+        return ("seq", items)
+    for outer in kinds:
+        for middle in kinds:
+            for inner in kinds:
+                for brk in ((False, True) if inner == "xor" and "loop" in (outer, middle) else (False,)):
+                    if brk and middle != "loop" and not (outer == "loop" and middle == "xor"):
+                        # the break branch must belong to an XOR of a loop body: the XOR's own loop is the middle
+                        # block, or the middle block is an XOR of the outer loop's body
+                        continue
+                    for ipos in (0, 1):
+                        for mpos in (0, 1):
+                            for tail in (1, 0):
+                                d = build(outer, middle, inner, ipos, mpos, tail, brk)
+                                from puml import to_text
+                                t = to_text(d)
+                                if t not in seen:
+                                    seen.add(t)
+                                    out.append(d)
+    return out
